@@ -53,6 +53,18 @@ func nondetSites() (string, error) {
 	if err != nil {
 		return "", err
 	}
+	// every function declaration by the position of its name: a call is resolved to its callee through the type checker
+	decls := map[string]*ast.FuncDecl{}
+	for _, files := range pkgs {
+		for _, f := range files {
+			for _, d := range f.Decls {
+				if fd, ok := d.(*ast.FuncDecl); ok {
+					pos := fset.Position(fd.Name.Pos())
+					decls[fmt.Sprintf("%s:%d", pos.Filename, pos.Line)] = fd
+				}
+			}
+		}
+	}
 	imp := importer.ForCompiler(fset, "source", nil)
 	var sites, pverbs []string
 	var dirs []string
@@ -75,7 +87,7 @@ func nondetSites() (string, error) {
 				use = append(use, f)
 			}
 		}
-		info := &types.Info{Types: map[ast.Expr]types.TypeAndValue{}}
+		info := &types.Info{Types: map[ast.Expr]types.TypeAndValue{}, Selections: map[*ast.SelectorExpr]*types.Selection{}}
 		conf := types.Config{Importer: imp, Error: func(error) {}}
 		rel, _ := filepath.Rel(repo, dir)
 		_, _ = conf.Check(rel, fset, use, info)
@@ -116,6 +128,9 @@ func nondetSites() (string, error) {
 						}
 						if _, isMap := tv.Type.Underlying().(*types.Map); isMap {
 							class := bodyClass(x, following[x])
+							if strings.HasPrefix(class, "call:") && callCopiesEntry(x, info, fset, decls) {
+								class = "copy-entries"
+							}
 							if class == "other" {
 								// a loop that stops at the first key that matches: what it answers is a function of
 								// the map only when at most one key can match; the keys are part of the site
@@ -212,6 +227,53 @@ func bodyClass(rs *ast.RangeStmt, next ast.Stmt) string {
 		}
 	}
 	return "other"
+}
+
+// callCopiesEntry: the loop's single statement is a call m(key, value) with the loop's own variables, and the callee - found
+// through the type checker - does nothing but `recv.field[firstParam] = secondParam`: the loop copies the entries into
+// another map, as if the assignment stood there
+func callCopiesEntry(rs *ast.RangeStmt, info *types.Info, fset *token.FileSet, decls map[string]*ast.FuncDecl) bool {
+	es, ok := rs.Body.List[0].(*ast.ExprStmt)
+	if !ok {
+		return false
+	}
+	ce, ok := es.X.(*ast.CallExpr)
+	if !ok || len(ce.Args) != 2 || rs.Key == nil || rs.Value == nil {
+		return false
+	}
+	if exprText(ce.Args[0]) != exprText(rs.Key) || exprText(ce.Args[1]) != exprText(rs.Value) || !isRangeVar(rs, ce.Args[0]) || !isRangeVar(rs, ce.Args[1]) {
+		return false
+	}
+	sel, ok := ce.Fun.(*ast.SelectorExpr)
+	if !ok {
+		return false
+	}
+	sn, ok := info.Selections[sel]
+	if !ok || sn.Obj() == nil {
+		return false
+	}
+	pos := fset.Position(sn.Obj().Pos())
+	fd, ok := decls[fmt.Sprintf("%s:%d", pos.Filename, pos.Line)]
+	if !ok || fd.Body == nil || len(fd.Body.List) != 1 || fd.Type.Params == nil {
+		return false
+	}
+	var params []string
+	for _, fl := range fd.Type.Params.List {
+		for _, nm := range fl.Names {
+			params = append(params, nm.Name)
+		}
+	}
+	as, ok := fd.Body.List[0].(*ast.AssignStmt)
+	if !ok || len(params) != 2 || len(as.Lhs) != 1 || len(as.Rhs) != 1 || as.Tok != token.ASSIGN {
+		return false
+	}
+	ix, ok := as.Lhs[0].(*ast.IndexExpr)
+	if !ok {
+		return false
+	}
+	ki, ok1 := ix.Index.(*ast.Ident)
+	vi, ok2 := as.Rhs[0].(*ast.Ident)
+	return ok1 && ok2 && ki.Name == params[0] && vi.Name == params[1]
 }
 
 // isRangeVar: e is the key or the value variable of the range statement
